@@ -83,6 +83,51 @@ def _class_snap(c, depth=0):
     return res
 
 
+def state_ok(s0, amplify):
+    """module state unchanged; otherwise: symbolic run -> suspicion (counterexample is produced and the
+    concrete replay decides); concrete run -> amplify the operation and check that behaviour still equals
+    what a fresh interpreter gives (a cache that changes no result is not a violation)"""
+    if same_state(snapshot(), s0):
+        return True
+    if hx.SYM:
+        hx.suspicion()
+        return False
+    for _ in range(60):
+        amplify()
+    return battery()
+
+
+def battery():
+    """fixed calls whose results are compared with the independent reference (= fresh interpreter)"""
+    ok = True
+    try:
+        legacy0 = encode.DEPRECATED_RABBITMQ_SUPPORT
+        for legacy in (False, True, False):
+            encode.support_deprecated_rabbitmq(legacy)
+            for n in (0, -1, 127, 128, 40000, 65535, 65536, 3000000000, 2 ** 40, -2 ** 40):
+                v = [n, {"k": n, "j": [n, "s", True, None]}]
+                ok = ok and ref.equal(encode.encode_table_value(v), ref.field_value(v, legacy))
+        encode.support_deprecated_rabbitmq(legacy0)
+        nested = bytes([0, 0, 0, 22, 1, 97, 65, 0, 0, 0, 16, 70, 0, 0, 0, 11, 1, 98, 65, 0, 0, 0, 5, 70, 0, 0, 0, 0])
+        c, got = decode.field_table(nested)
+        ok = ok and c == 26 and got == {"a": [{"b": [{}]}]}
+        for ch in (0, 7):
+            m = commands.Queue.Declare(0, "q", False, True, False, False, False, {"x": [1, {"y": 2}]})
+            d = frame.marshal(m, ch)
+            n, c2, f = frame.unmarshal(d)
+            ok = ok and n == len(d) and c2 == ch and f.arguments == {"x": [1, {"y": 2}]} and f.durable is True
+            h = header.ContentHeader(0, 5, commands.Basic.Properties(priority=1, headers={"a": 1}))
+            g = frame.unmarshal(frame.marshal(h, ch))[2]
+            ok = ok and g.properties.priority == 1 and g.properties.headers == {"a": 1}
+            g2 = frame.unmarshal(frame.marshal(header.ContentHeader(0, 5), ch))[2]
+            ok = ok and g2.properties.priority is None and g2.properties.headers is None
+        ok = ok and commands.Queue.Declare().arguments == {} and header.ContentHeader().properties.priority is None
+        ok = ok and type(frame.unmarshal(bytes([8, 0, 0, 0, 0, 0, 0, 0xCE]))[2]) is heartbeat.Heartbeat
+    except Exception:
+        return False
+    return ok
+
+
 def set_mode(mode):
     if mode == 0:
         encode.support_deprecated_rabbitmq(False)
@@ -107,9 +152,9 @@ def body(n, k, s, b):
         s0 = snapshot()
         v = [n, hx.table([(k, n), ("z", [s, b, None])])]
         r1 = attempt(encode.encode_table_value, v)
-        ok = same_state(snapshot(), s0)
+        ok = state_ok(s0, lambda: attempt(encode.encode_table_value, v))
         r2 = attempt(encode.field_table, hx.table([(k, v)]))
-        ok = ok and same_state(snapshot(), s0)
+        ok = ok and state_ok(s0, lambda: attempt(encode.field_table, hx.table([(k, v)])))
         r3 = attempt(encode.encode_table_value, v)
         ok = ok and r1[0] == r3[0] and (r1[0] != 'ok' or list(r1[1]) == list(r3[1]))
         if r1[0] == 'ok':
@@ -125,11 +170,11 @@ def body(data):
     s0 = snapshot()
     d = hx.buf(hx.blist(data, %(n)d))
     r1 = attempt(frame.unmarshal, d)
-    ok = same_state(snapshot(), s0)
+    ok = state_ok(s0, lambda: attempt(frame.unmarshal, d))
     r4 = attempt(frame.unmarshal, d)
     ok = ok and r1[0] == r4[0] and (r1[0] != 'ok' or (r1[1][0] == r4[1][0] and r1[1][1] == r4[1][1]
                                                        and type(r1[1][2]) is type(r4[1][2])))
-    return ok and same_state(snapshot(), s0)
+    return ok and state_ok(s0, lambda: attempt(frame.unmarshal, d))
 '''
 
 STEP_NESTED = '''
@@ -145,13 +190,13 @@ def body(tag, v0, v1):
     ok = g0[0] == 'ok'
     for _ in range(2):
         r2 = attempt(decode.field_table, nested)
-    ok = ok and same_state(snapshot(), s0)
+    ok = ok and state_ok(s0, lambda: attempt(decode.field_table, nested))
     g1 = attempt(decode.field_table, good)
     ok = ok and g1[0] == 'ok' and g1[1][0] == g0[1][0] and len(g1[1][1]) == 1
     wire = hx.buf([1, 0, 1, 0, 0, 0, 4 + 7 + len(nested)] + [0, 50, 0, 20] + [0, 0, 0, 0, 0, 0, 0][:0]
                   + [0, 0, 0, 0, 0] + list(nested) + [0xCE])
     r3 = attempt(frame.unmarshal, wire)
-    ok = ok and same_state(snapshot(), s0)
+    ok = ok and state_ok(s0, lambda: attempt(frame.unmarshal, wire))
     return ok
 '''
 
@@ -183,7 +228,7 @@ def body(ch, tag, flag):
                 x, y = getattr(u1[2], name), getattr(u2[2], name)
                 if isinstance(x, (dict, list, bytearray)):
                     ok = ok and x is not y
-    ok = ok and same_state(snapshot(), s0)
+    ok = ok and state_ok(s0, lambda: None)
     # content headers: default properties are per object, decoded properties are per frame
     h1, h2 = header.ContentHeader(), header.ContentHeader()
     ok = ok and h1.properties is not h2.properties
@@ -199,7 +244,7 @@ def body(ch, tag, flag):
     a.properties.headers["poison"] = 1
     ok = ok and "poison" not in c.properties.headers and frame.unmarshal(d1)[2].properties.headers == {"k": flag}
     ok = ok and header.ContentHeader().properties.priority is None
-    ok = ok and same_state(snapshot(), s0)
+    ok = ok and state_ok(s0, lambda: None)
     return ok
 '''
 
